@@ -67,7 +67,9 @@ def gen_worker(args):
     for i in idxs:
         sd = runner.seed64(base_seed, profile, i)
         del TRIPS[:]
-        g = Gen(sd, profile, [], overrides={'fork': 0.0}, avoid=())
+        ov = dict(props.SPECS['C28'].overrides(profile) or {})
+        ov['fork'] = 0.0
+        g = Gen(sd, profile, [], overrides=ov, avoid=())
         w = g.run()
         out.append({'profile': profile, 'idx': i, 'seed': sd, 'cfg': enc(w.cfg), 'events': enc(w.trace),
                     'digest': digest_world(w), 'steps': len(w.steps), 'trips': list(TRIPS), 'abs': runner.abstract_hash(w),
